@@ -371,12 +371,13 @@ def evaluate__substring_before_or_after_functions(
 @method(function('boolean', nargs=1,
                  sequence_types=('item()*', 'xs:boolean')))
 def evaluate__boolean(self: XPathFunction, context: ta.ContextType = None) -> bool:
-    return self.boolean_value(self[0].select(self.context or context))
+    # the effective boolean value stops at the first node: iterate on a copy, the caller's focus stays
+    return self.boolean_value(self[0].select(copy(self.context or context)))
 
 
 @method(function('not', nargs=1, sequence_types=('item()*', 'xs:boolean')))
 def evaluate__not(self: XPathFunction, context: ta.ContextType = None) -> bool:
-    return not self.boolean_value(self[0].select(self.context or context))
+    return not self.boolean_value(self[0].select(copy(self.context or context)))
 
 
 @method(function('true', nargs=0, sequence_types=('xs:boolean',)))
